@@ -44,6 +44,7 @@ def run(ctx):
         fs = ctx.facts(cfg)
         ctx.guard(html_taint, ctx, cfg, fs)
         ctx.guard(html_tags, ctx, cfg, fs)
+        ctx.guard(text_arm_tags, ctx, cfg, fs)
         ctx.guard(pairing, ctx, cfg, fs)
         ctx.guard(escaper, ctx, cfg, fs)
         ctx.guard(unescaped, ctx, cfg, fs)
@@ -111,6 +112,33 @@ def arm_consts(b, sw, variant, res_pushes):
                 if r.kind == 'const' and isinstance(r.what, str):
                     out.append((c, r.what))
     return out
+
+def text_arm_tags(ctx, cfg, fs):
+    """block structure comes from the block tokens only: while TEXT is rendered (the Text arm of render_html) the only structural
+    tag ever written is the void `<br>` - a paragraph break inside a help text must not close or open `<p>`, `<dd>`, `<div>` ..,
+    because what is open at that moment is whatever block the text happens to sit in (an item body inside a list inside a block)"""
+    b = ctx.look(fs.one(r'buffer::html::<impl buffer::Doc>::render_html$'))
+    res = out_string(b)
+    tsw = [s for s in switches(b) if s.kind == 'enum' and s.enum == 'buffer::Token' and len({s.target('Text'), s.target('BlockStart'), s.target('BlockEnd')}) == 3]
+    nx = [c for c in b.calls() if c.is_(r'Iterator>?::next$') and 'buffer::Token' in c.full]
+    if not tsw or not nx:
+        raise Broken('render_html: token dispatch not found')
+    region = reachable_edges(b, tsw[0].target('Text'), avoid=[nx[0].bb])
+    locs, sinks = flows_to(b, res, through=None)
+    bad = []; n = 0
+    for (bb, k, kind, p) in sinks:
+        if kind != 'call' or bb not in region:
+            continue
+        c = Call(b, bb, p)
+        if not c.is_(r'^std::string::String::(push_str|push|insert_str)$'):
+            continue
+        for r in provenance(b, c.args[1], c.bb, 'term'):
+            if r.kind == 'const' and isinstance(r.what, str):
+                n += 1
+                for (close, tag) in tags_of(r.what):
+                    if tag.lower() != 'br':
+                        bad.append('%s%s at %s' % ('/' if close else '', tag, b.where(bb)))
+    ctx.ob('G.html-tags', 'render_html:text-arm-writes-no-block-tags', n > 0 and not bad, 'the Text arm of render_html writes %d constant(s), structural tags among them: %s' % (n, bad or 'only <br>'), where=b.where(tsw[0].target('Text')), cfg=cfg)
 
 def html_tags(ctx, cfg, fs):
     b = ctx.look(fs.one(r'buffer::html::<impl buffer::Doc>::render_html$'))
